@@ -102,6 +102,9 @@ def motif_spec(name):
         "path2": dict(sizes=[3], indices=[[0]], builds=[path2], names=[path2_names]),
         "tri": dict(sizes=[3], indices=[[0]], builds=[tri], names=[tri_names]),
         "hub2": dict(sizes=[1, 2], indices=[[0, 1]], builds=[hub2], names=[hub2_names]),
+        # one bare edge whose two ends are separate orbits of size 1 (tail / head), alone and next to an ordinary bare edge
+        "arc": dict(sizes=[1, 1], indices=[[0, 1]], builds=[bare_edge], names=[bare_edge_name]),
+        "arc+bare": dict(sizes=[1, 1, 2], indices=[[0, 1], [2]], builds=[bare_edge, bare_edge], names=[lambda: "arc", bare_edge_name]),
         "bare+tri": dict(sizes=[2, 3], indices=[[0], [1]], builds=[bare_edge, tri], names=[bare_edge_name, tri_names]),
         "bare+hub2": dict(sizes=[2, 1, 2], indices=[[0], [1, 2]], builds=[bare_edge, hub2], names=[bare_edge_name, hub2_names]),
         "diamond5": dict(sizes=[2, 2], indices=[[0, 1]], builds=[diamond5], names=[diamond5_names]),
